@@ -380,6 +380,37 @@ Check(e) ==
             /\ Bit(e.r[3], 21) # Bit(e.r[2], 21)
       [] e.op = "mxcsr_rt" -> e.got = e.v /\ e.ind = e.v
       [] e.op = "ctx" -> CtxOK(e)
+      [] e.op = "pressure" ->       \* 13 register-held and 8 red-zone values survive one wrapper call
+            LET ins == e.instrs  v == e.v  w == e.w
+                one(m) == Len(ins) = 1 /\ ins[1].m = m IN
+            /\ e.k = "ok"
+            /\ \A i \in 1 .. 13 : e.got[i] = e.src[i]
+            /\ \A i \in 1 .. 8 : e.got[13 + i] = XorW(e.src[i], W(23130))
+            /\ CASE e.name = "xcr0_write_raw" -> one("xsetbv") /\ ins[1].a = ZeroW /\ ins[1].c = v
+                 [] e.name = "lgdt" -> one("lgdt") /\ ins[1].b = Lo(w, 16) /\ ins[1].c = SignExt(v)
+                 [] e.name = "lidt" -> one("lidt") /\ ins[1].b = Lo(w, 16) /\ ins[1].c = SignExt(v)
+                 [] e.name = "load_tss" -> one("ltr") /\ ins[1].a = Lo(v, 16)
+                 [] e.name = "invlpg" -> OneInvlpg(ins, SignExt(v))
+                 [] e.name = "invpcid_addr" -> InvpcidOK(0, WVal12(w), SignExt(v), ins)
+                 [] e.name = "invpcid_single" -> InvpcidOK(1, WVal12(w), ZeroW, ins)
+                 [] e.name = "invpcid_all" -> InvpcidOK(IF v[1] % 2 = 0 THEN 2 ELSE 3, 0, ZeroW, ins)
+                 [] e.name = "cs_set" -> one("retfq") /\ ins[1].c = Lo(v, 16)
+                 [] e.name = "ds_set" -> one("mov_to_sreg") /\ ins[1].a = W(3) /\ ins[1].c = Lo(v, 16)
+                 [] e.name = "swapgs" -> one("swapgs")
+                 [] e.name = "cr0_write_raw" -> one("mov_to_cr") /\ ins[1].a = W(0) /\ ins[1].c = v
+                 [] e.name = "cr4_write_raw" -> one("mov_to_cr") /\ ins[1].a = W(4) /\ ins[1].c = v
+                 [] e.name = "dr7" -> Len(ins) = 2 /\ ins[1].m = "mov_to_dr" /\ ins[1].a = W(7) /\ ins[1].c = v
+                                      /\ ins[2].m = "mov_from_dr" /\ ins[2].a = W(7)
+                 [] e.name = "msr_write" -> one("wrmsr") /\ ins[1].c = v
+                 [] e.name = "port_w8" -> one("out") /\ ins[1].a = Lo(w, 16) /\ ins[1].b = W(1) /\ ins[1].c = Lo(v, 8)
+                 [] e.name = "port_w16" -> one("out") /\ ins[1].a = Lo(w, 16) /\ ins[1].b = W(2) /\ ins[1].c = Lo(v, 16)
+                 [] e.name = "port_w32" -> one("out") /\ ins[1].a = Lo(w, 16) /\ ins[1].b = W(4) /\ ins[1].c = Lo(v, 32)
+                 [] e.name \in {"port_r8", "port_r16", "port_r32"} -> one("in") /\ ins[1].a = Lo(w, 16)
+                 [] e.name = "enable" -> one("sti")
+                 [] e.name = "disable" -> one("cli")
+                 [] e.name = "enable_hlt" -> Len(ins) = 2 /\ ins[1].m = "sti" /\ ins[2].m = "hlt"
+                 [] e.name = "wi" -> Len(ins) = 2 /\ ins[1].m = "cli" /\ ins[2].m = "sti"
+                 [] OTHER -> TRUE
       [] e.op = "lean" ->
             LET a == e.args[1]  b == e.args[2]  ab == AddC(a, b, 0) IN
             e.k = "ok" /\
